@@ -68,7 +68,7 @@ def run(prop, tier):
     with open(cp, 'w') as f:
         for k, c in enumerate(cases):
             c['id'] = 'api-%d' % k
-            c['seed'] = seed * 1000003 + k % 97
+            c['seed'] = vlib.jseed(seed, k) % 97
             f.write(json.dumps(c) + '\n')
     rp = os.path.join(vlib.subdir('results'), 'api.ndjson')
     vlib.run([vh, 'api-replay', '--in', cp, '--out', rp], check=True)
